@@ -506,10 +506,12 @@ impl FileStateMachine {
         let mut pos = 0;
         let mut operations = Vec::new();
         let mut replayed_count = 0;
+        // highest (index, term) among the complete WAL records
+        let mut replayed_up_to: (u64, u64) = (0, 0);
 
         while pos + 17 < buffer.len() {
             // Read entry index (8 bytes)
-            let _index = u64::from_be_bytes(buffer[pos..pos + 8].try_into().unwrap());
+            let index = u64::from_be_bytes(buffer[pos..pos + 8].try_into().unwrap());
             pos += 8;
 
             // Read entry term (8 bytes)
@@ -606,6 +608,10 @@ impl FileStateMachine {
 
             operations.push((op_code, key, value, term, expire_at_secs));
             replayed_count += 1;
+            // complete record: its effects are restored below, so it counts as applied
+            if index > replayed_up_to.0 {
+                replayed_up_to = (index, term);
+            }
         }
 
         info!(
@@ -708,6 +714,14 @@ impl FileStateMachine {
             "WAL replay complete: {} operations replayed, {} applied, {} expired keys skipped",
             replayed_count, applied_count, skipped_expired
         );
+
+        // metadata.bin only records the applied index of the last checkpoint; the WAL records
+        // replayed above were applied after it. Without this the node reports an older
+        // last_applied than its data and Raft applies those entries a second time.
+        if replayed_up_to.0 > self.last_applied_index.load(Ordering::SeqCst) {
+            self.last_applied_index.store(replayed_up_to.0, Ordering::SeqCst);
+            self.last_applied_term.store(replayed_up_to.1, Ordering::SeqCst);
+        }
 
         // Unconditionally clear WAL after replay. load_data() already restored the last
         // checkpoint; WAL is only the post-checkpoint delta. Even if 0 entries were applied
